@@ -91,6 +91,9 @@ type callCase struct {
 	TOCls     string
 	Req       headerSet
 	Rsp       headerSet
+	// FanOut > 1: the handler adds its response headers from that many
+	// goroutines concurrently
+	FanOut int
 	// BlockTarget > 0: pad the request header block to exactly this many bytes
 	BlockTarget int
 	// reuse sequences: the FContext shared by the steps, the 1-based step and
@@ -135,8 +138,8 @@ func (cs *callCase) witness(extra map[string]interface{}) map[string]interface{}
 	w := map[string]interface{}{
 		"leg": cs.Leg, "case_index": cs.Index, "method": cs.Method, "outcome": cs.Outcome,
 		"correlation_id_given": qs(cs.CID), "timeout_ms_set": cs.TOms, "timeout_special_set": cs.TOSpecial,
-		"request_headers_set":        qpairs(cs.Req.Pairs),
-		"response_headers_handler":   qpairs(cs.Rsp.Pairs),
+		"request_headers_set":      qpairs(cs.Req.Pairs),
+		"response_headers_handler": qpairs(cs.Rsp.Pairs), "handler_fan_out_goroutines": cs.FanOut,
 		"caller_request_headers":     qmap(cs.callerReqBefore),
 		"handler_request_headers":    qmap(cs.handlerReq),
 		"handler_response_at_entry":  qmap(cs.handlerRspEntry),
@@ -181,6 +184,24 @@ func genCase(run *ev.Run, leg string, legIdx, i int, maxLong int) *callCase {
 		names = append(names, p.Name)
 	}
 	cs.Rsp = genHeaders(rng, 20, names, maxLong)
+	if rng.Intn(5) == 0 {
+		// fan-out handler: 8 goroutines x 4 headers, distinct names
+		cs.FanOut = 8
+		cs.Rsp = headerSet{Classes: map[string]bool{"n:fanout": true}}
+		seen := map[string]bool{}
+		for len(cs.Rsp.Pairs) < 32 {
+			n, _ := genName(rng, false)
+			if seen[n] {
+				n += fmt.Sprint(len(cs.Rsp.Pairs))
+			}
+			if seen[n] || avoidName(n) {
+				continue
+			}
+			seen[n] = true
+			v, _ := genValue(rng, false, 0)
+			cs.Rsp.Pairs = append(cs.Rsp.Pairs, wire.Pair{Name: n, Value: v})
+		}
+	}
 	return cs
 }
 
@@ -191,6 +212,9 @@ func (cs *callCase) shape() string {
 	shadow := ""
 	if cs.Rsp.Classes["n:shadow"] {
 		shadow = "S"
+	}
+	if cs.FanOut > 1 {
+		shadow = "F"
 	}
 	gen := "given"
 	if cs.CID == "" {
@@ -277,8 +301,28 @@ func (lr *legRun) onCall(c *e2e.Call) {
 		cs.handlerTimeout = c.Timeout
 	}
 	cs.mu.Unlock()
-	for _, p := range cs.Rsp.Pairs {
-		c.Ctx.AddResponseHeader(p.Name, p.Value)
+	if cs.FanOut > 1 {
+		// the handler fans out: several goroutines add their response headers
+		// to the inbound context at once (FContext is documented thread-safe),
+		// joined before the handler returns
+		var wg sync.WaitGroup
+		start := make(chan struct{})
+		for g := 0; g < cs.FanOut; g++ {
+			wg.Add(1)
+			go func(g int) {
+				defer wg.Done()
+				<-start
+				for i := g; i < len(cs.Rsp.Pairs); i += cs.FanOut {
+					c.Ctx.AddResponseHeader(cs.Rsp.Pairs[i].Name, cs.Rsp.Pairs[i].Value)
+				}
+			}(g)
+		}
+		close(start)
+		wg.Wait()
+	} else {
+		for _, p := range cs.Rsp.Pairs {
+			c.Ctx.AddResponseHeader(p.Name, p.Value)
+		}
 	}
 	if first {
 		fin := c.Ctx.ResponseHeaders()
@@ -738,7 +782,11 @@ func (lr *legRun) verify(cs *callCase) {
 		wantAfter := cs.Rsp.asMap()
 		wantAfter["_cid"] = cs.callerCID
 		if !mapsEqual(wantAfter, cs.callerRspAfter) {
-			lr.violation("caller-response-headers-differ", "after the call returned, the caller's response headers are not the handler's (those it set plus the _cid echo)", cs,
+			kind := "caller-response-headers-differ"
+			if cs.FanOut > 1 {
+				kind = "concurrently-added-response-headers-lost"
+			}
+			lr.violation(kind, "after the call returned, the caller's response headers are not the handler's (those it set plus the _cid echo)", cs,
 				map[string]interface{}{"diff": diffMaps(wantAfter, cs.callerRspAfter)})
 		} else if !mapsEqual(without(hFinal, "_opid"), cs.callerRspAfter) {
 			lr.violation("caller-response-headers-differ", "after the call returned, the caller's response headers are not the handler's final response headers minus _opid", cs,
